@@ -161,13 +161,13 @@ pub fn vector_mut_copy(vm: &mut Vm) -> Result<VCell, Error> {
         start = Some(pop_index(vm, "vector-copy!")?);
     }
 
-    let from_vector = pop_vector(vm)?;
-    let from_vector = from_vector.as_ref();
+    let from_rc = pop_vector(vm)?;
+    let from_vector = from_rc.as_ref();
 
     let at = pop_index(vm, "vector-copy!")?;
 
-    let to_vector = pop_vector(vm)?;
-    let to_vector = to_vector.as_ref();
+    let to_rc = pop_vector(vm)?;
+    let to_vector = to_rc.as_ref();
 
     if at > to_vector.len() {
         return Err(InvalidVectorIndex(at, to_vector.len()));
@@ -193,9 +193,18 @@ pub fn vector_mut_copy(vm: &mut Vm) -> Result<VCell, Error> {
         return Err(InvalidSyntax("vector-copy!: to vector is too small".into()));
     }
 
-    for i in start..end {
-        let val = from_vector.get(i).unwrap();
-        to_vector.put(at + (i - start), val);
+    if std::rc::Rc::ptr_eq(&to_rc, &from_rc) && at > start {
+        // overlapping ranges of one vector: copy backwards so that no element is
+        // overwritten before it has been read
+        for i in (start..end).rev() {
+            let val = from_vector.get(i).unwrap();
+            to_vector.put(at + (i - start), val);
+        }
+    } else {
+        for i in start..end {
+            let val = from_vector.get(i).unwrap();
+            to_vector.put(at + (i - start), val);
+        }
     }
 
     Ok(VCell::Void)
